@@ -435,7 +435,13 @@ def c09(run):
                     continue
                 tgt = rng.choice(["engine", "pool"])
                 beh = {n: rng.choice(["ok", "ret"]) for n, b in r["beh"]}
-                carrier = rng.choice(r["rules"])["name"]
+                # some of these bodies write injected data that the whole call shares: their rule must not run twice at the
+                # same moment (the same name twice in one DAG layer / in a name list) - that would be the caller's own race
+                once = [ru["name"] for ru in r["rules"]
+                        if (r["names"] or []).count(ru["name"]) <= 1 and all(layer.count(ru["name"]) <= 1 for layer in (r["dag"] or []))]
+                if not once:
+                    continue
+                carrier = rng.choice(once)
                 decl = [{"name": ru["name"], "sal": ru["sal"], "tpl": ("N:" + code) if ru["name"] == carrier else "A"} for ru in r["rules"]]
                 call = {"method": r["method"], "via": "direct", "b": r["b"], "names": r["names"], "n": r["n"], "m": r["m"],
                         "dag": r["dag"], "beh": beh, "tagset": []}
